@@ -264,7 +264,8 @@ def std_stages(tier, seed, battery, closed=("split", "long"), kinds_random=None,
 
 
 PROP_INVS = {
-    "C01": ["Inv_C01"], "C02": ["Inv_C02"], "C03": ["Inv_C03"], "C04": ["Inv_C04"], "C05": ["Inv_C05"],
+    "C01": ["Inv_C01"], "C02": ["Inv_C02", "Inv_C02P"], "C03": ["Inv_C03", "Inv_C03P"], "C04": ["Inv_C04", "Inv_C04P"],
+    "C05": ["Inv_C05", "Inv_C05P"],
     "C06": ["Inv_C06"], "C11": ["Inv_C11"], "C14": ["Inv_C14"], "C15": ["Inv_C15"],
     "C08": ["Inv_C01", "Inv_C02", "Inv_C05", "Inv_C06", "Inv_C11"],
     "C09": ["Inv_C01", "Inv_C02", "Inv_C03", "Inv_C05", "Inv_C06", "Inv_C11"],
@@ -318,8 +319,9 @@ def check_C01(work, prop, tier, seed, t0):
 
 
 def check_C02(work, prop, tier, seed, t0):
-    extra = coll_stages(tier, "iter") + comp_stages(tier, seed, "iter")
-    stages = std_stages(tier, seed, "iter", extra=extra)
+    bat = "iter,iterof=All+Backward"
+    extra = coll_stages(tier, bat) + comp_stages(tier, seed, bat)
+    stages = std_stages(tier, seed, bat, extra=extra)
     return tree_check(work, prop, tier, seed, t0, stages, PROP_INVS[prop], ["AllOK", "BackwardOK"], RULE_TREE, model_props=[])
 
 
@@ -327,7 +329,7 @@ def check_C03(work, prop, tier, seed, t0):
     q = tier == "quick"
     # all bound pairs after every transition only on the small closed universe; sampled pairs elsewhere
     # (measured: all pairs x every transition of the 13-key universes is > 10^8 calls / 60 GB of traces)
-    bat = "range=40" if q else "range=100"
+    bat = "range=40,iterof=Range" if q else "range=100,iterof=Range"
     stages = std_stages(tier, seed, bat, closed=("range", "split"), fan=False,
                         extra=comp_stages(tier, seed, bat) +
                         [Stage("sim", "uint8", "fan1", "q", "range=30", num=(1 if q else 6), depth=(480 if q else 1000),
@@ -349,7 +351,7 @@ def check_C03(work, prop, tier, seed, t0):
 def check_C04(work, prop, tier, seed, t0):
     q = tier == "quick"
     size = "q" if q else "t"
-    bat = "prefix=-1"
+    bat = "prefix=-1,iterof=Prefix"
     st = [Stage("model", "alpha/string", "prefix", size, bat), Stage("model", "alpha/string", "split", size, bat),
           Stage("model", "alpha/bytes", "long", size, bat),
           Stage("sim", "alpha/string", "fan1x", size, "prefix=8", num=(1 if q else 6), depth=(480 if q else 1000), ramp=True,
@@ -370,7 +372,7 @@ def check_C04(work, prop, tier, seed, t0):
 
 
 def check_C05(work, prop, tier, seed, t0):
-    bat = "minmax,topk"
+    bat = "minmax,topk,iterof=TopK+BottomK"
     extra = coll_stages(tier, bat) + comp_stages(tier, seed, bat)
     stages = std_stages(tier, seed, bat, extra=extra)
     return tree_check(work, prop, tier, seed, t0, stages, PROP_INVS[prop], ["MinMaxOK", "TopBottomOK"], RULE_TREE, model_props=[])
@@ -420,7 +422,7 @@ def check_C15(work, prop, tier, seed, t0):
 
 def check_C08(work, prop, tier, seed, t0):
     q = tier == "quick"
-    bat = "search,iter,minmax,dump"
+    bat = "search,iter,minmax,dump,rangec=6"
     st = coll_stages(tier, bat, n=(6 if q else 25), ln=(70 if q else 200))
     st.append(Stage("model", "collation/bytes/sv", "textq", "q", bat))
     st.append(Stage("model", "collation/runes/und", "textq", "q", bat))
@@ -428,7 +430,7 @@ def check_C08(work, prop, tier, seed, t0):
     for k in (["collation/bytes/und"] if q else ["collation/bytes/und", "collation/bytes/sv", "collation/bytes/en-num"]):
         st.append(Stage("arena", k, "text", "q", "search,iter,minmax", n=(3 if q else 10), len=(50 if q else 120)))
     return tree_check(work, prop, tier, seed, t0, st, PROP_INVS[prop],
-                      ["SearchOK", "DeleteResOK", "AllOK", "BackwardOK", "WFOK", "SizeOK"], RULE_TREE, model_props=[])
+                      ["SearchOK", "DeleteResOK", "AllOK", "BackwardOK", "WFOK", "SizeOK"], RULE_TREE, model_props=[], drift=True)
 
 
 def check_C09(work, prop, tier, seed, t0):
